@@ -554,12 +554,22 @@ func evalC02(c *Ctx, k skCase, exhaustive bool) error {
 		}
 		tc := fmt.Sprintf("(unsk %s (%s) %s %s %s)", kk.s, kk.ks.sx(), role, hx(raw), hdr)
 		r.Count(tc, true, "tamper:"+kind)
-		// exception: the first-payload octet no longer names SK -> handled as an unprotected datagram, no key applied
+		// exception: the first-payload octet no longer names SK AND the datagram no longer presents an Encrypted payload
+		// (the plain chain walk - the model's, not the implementation's - finds no SK first) -> handled as an unprotected
+		// datagram, no key applied.  A datagram that still presents SK behind skipped unsupported payloads is NOT excepted.
 		if len(raw) >= 28 && raw[16] != 46 && hdr != "explicit" {
-			if strings.Contains(got, "dec-") || strings.Contains(got, "enc-") || strings.HasPrefix(got, "(fault") {
-				r.Add(Finding{Kind: "instance", What: "a key was applied to / crash on a datagram that does not present an Encrypted payload (" + kind + ")", Case: tc, Expected: "plain handling", Observed: got})
+			presentsSK := false
+			if pd, err := c.M.Ask("(decode " + hx(raw) + ")"); err != nil {
+				return err
+			} else if b := okBody(pd); b != nil && len(b[0].At(2).List) > 0 && b[0].At(2).At(0).Head() == "sk" {
+				presentsSK = true
 			}
-			return nil
+			if !presentsSK {
+				if strings.Contains(got, "dec-") || strings.Contains(got, "enc-") || strings.HasPrefix(got, "(fault") {
+					r.Add(Finding{Kind: "instance", What: "a key was applied to / crash on a datagram that does not present an Encrypted payload (" + kind + ")", Case: tc, Expected: "plain handling", Observed: got})
+				}
+				return nil
+			}
 		}
 		if strings.HasPrefix(got, "((ok") {
 			r.Add(Finding{Kind: "instance", What: "a modified / foreign protected message is accepted (" + kind + ")", Case: tc, Expected: "(err (calls))", Observed: got})
@@ -761,9 +771,35 @@ func runC17(c *Ctx) error {
 		var genuine [][]byte // messages protected by a fresh peer, with their sender role
 		var groles []string
 		hist := []string{}
+		var justAccepted []byte // a genuine datagram the long-lived object accepted in the previous step
+		var justRole string
 		for step := 0; step < n; step++ {
 			var op, implLong, implFresh, model string
-			switch rng.Intn(5) {
+			choice := rng.Intn(5)
+			if justAccepted != nil && rng.Chance(2, 3) {
+				choice = 5
+			}
+			switch choice {
+			case 5: // a forgery made from the datagram that was accepted a moment ago: same checksum octets, another octet changed
+				raw := append([]byte(nil), justAccepted...)
+				icv := integOutLen[s.i]
+				pos := rng.Pick([]int{20 + rng.Intn(4), 32 + rng.Intn(16), 18, 19})
+				if body := len(raw) - icv - 48; body > 0 && rng.Bool() {
+					pos = 48 + rng.Intn(body)
+				}
+				raw[pos] ^= 1 << uint(rng.Intn(8))
+				role := justRole
+				justAccepted = nil
+				op = fmt.Sprintf("(unprotect %s %s nohdr)", role, hx(raw))
+				implLong = implUnprotect(long, role, raw, "nohdr")
+				implFresh = implUnprotect(fresh(), role, raw, "nohdr")
+				model, err = c.M.Ask(fmt.Sprintf("(unprotect long %s %s nohdr)", role, hx(raw)))
+				if err != nil {
+					return err
+				}
+				if strings.HasPrefix(implLong, "((ok") {
+					r.Add(Finding{Kind: "instance", What: "a forgery of the message accepted just before (checksum octets kept, another octet changed) is accepted", Case: strings.Join(append(hist, op), " "), Expected: "(err (calls))", Observed: implLong})
+				}
 			case 0, 1: // protect as either role
 				role := []string{"i", "r"}[rng.Intn(2)]
 				m := genMessage(rng)
@@ -807,6 +843,8 @@ func runC17(c *Ctx) error {
 				}
 				if !strings.HasPrefix(implLong, "((ok") {
 					r.Add(Finding{Kind: "instance", What: "a genuine message from a fresh peer is rejected late in a history", Case: strings.Join(append(hist, op), " "), Expected: "((ok ...", Observed: implLong})
+				} else {
+					justAccepted, justRole = wire, other(role)
 				}
 			case 3: // tampered / truncated / garbage
 				var raw []byte
